@@ -85,6 +85,26 @@ def handle (line : String) : String :=
     match cnt.toNat?, len.toNat? with
     | some cnt, some len => showO toString (descRun descCfg 0 (List.replicate cnt len))
     | _, _ => "bad-op"
+  | ["nonunique", tool, bits] =>
+    match nonUniqueCfgs.lookup tool with
+    | some c => showO toString (nonUniqueOut c (bits.toList.map (· == '1')))
+    | none => "bad-op"
+  | ["recursion", which, shape, n] =>
+    match n.toNat? with
+    | some n =>
+      let mf? : Option Bool := match which with
+        | "inheritance" => some inheritanceMarkFirst | "named-attribute" => some namedAttrMarkFirst | _ => none
+      let h? : Option Hier := match shape with
+        | "cycle" => some (fun i => [(i + 1) % (max n 1)])
+        | "chain" => some (fun i => if i + 1 < n then [i + 1] else [])
+        | _ => none
+      match mf?, h? with
+      | some mf, some h =>
+        match visit mf h (n + 2) [] 0 with
+        | some m => s!"returns marked={m.length}"
+        | none => "never-returns"
+      | _, _ => "bad-op"
+    | none => "bad-op"
   | ["filename", n] =>
     match n.toNat? with
     | some n => showO toString (fileNameOut fileNameCfg n)
